@@ -63,16 +63,41 @@ def lexNumber (s : List Char) : Option (List Char × List Char) :=
     else none
   | [] => none
 
-/-- character_constant() -/
+def isOctDigit (c : Char) : Bool := decide ('0' ≤ c) && decide (c ≤ '7')
+def isHexDigit (c : Char) : Bool :=
+  isDigit c || (decide ('a' ≤ c) && decide (c ≤ 'f')) || (decide ('A' ≤ c) && decide (c ≤ 'F'))
+
+/-- `_NUMERIC_ESCAPE.match(string, pos)`, the regex `\\(?:[0-7]{1,3}|x[0-9a-fA-F]+)` (greedy): a backslash and
+    one to three octal digits, or a backslash, `x` and hexadecimal digits.  Returns (matched text, rest). -/
+def numericEscape (s : List Char) : Option (List Char × List Char) :=
+  match s with
+  | '\\' :: c :: r =>
+    if isOctDigit c then
+      let ds := ((c :: r).take 3).takeWhile isOctDigit
+      some ('\\' :: ds, (c :: r).drop ds.length)
+    else if c == 'x' then
+      let hs := r.takeWhile isHexDigit
+      if hs.isEmpty then none else some ('\\' :: 'x' :: hs, r.drop hs.length)
+    else none
+  | _ => none
+
+/-- character_constant(): a numeric escape sequence, else a backslash and one printable character, else one
+    printable character, between single quotes -/
 def lexChar (s : List Char) : Option (List Char × List Char) :=
   match s with
   | '\'' :: r =>
-    match r with
-    | '\\' :: c :: '\'' :: rest => if isPrintable c then some (['\\', c], rest) else none
-    | c :: '\'' :: rest =>
-      if c == '\\' then none   -- read(2) = "\\'" is printable: value = "\\'" then needs another quote
-      else if isPrintable c then some ([c], rest) else none
-    | _ => none
+    match numericEscape r with
+    | some (t, r1) =>
+      (match r1 with
+       | '\'' :: rest => some (t, rest)
+       | _ => none)
+    | none =>
+      match r with
+      | '\\' :: c :: '\'' :: rest => if isPrintable c then some (['\\', c], rest) else none
+      | c :: '\'' :: rest =>
+        if c == '\\' then none   -- read(2) = "\\'" is printable: value = "\\'" then needs another quote
+        else if isPrintable c then some ([c], rest) else none
+      | _ => none
   | _ => none
 
 /-- string_constant() -/
